@@ -8,14 +8,15 @@ import (
 )
 
 // Value is a run-time value of the symbolic interpreter:
-//   *Term    scalars (bool, integers, float64)
-//   Ptr      pointer to a Cell (nil pointer: Ptr{})
-//   BytePtr  pointer to one element of a byte array
-//   Slice    slice header over an Arr (lengths are always concrete)
-//   Str      string header over a byte Arr
-//   Iface    interface value (nil interface: Iface{})
-//   *Closure function value (nil func: (*Closure)(nil))
-//   MapV, ChanV, Struct, ArrayV, Tuple, *Opaque
+//
+//	*Term    scalars (bool, integers, float64)
+//	Ptr      pointer to a Cell (nil pointer: Ptr{})
+//	BytePtr  pointer to one element of a byte array
+//	Slice    slice header over an Arr (lengths are always concrete)
+//	Str      string header over a byte Arr
+//	Iface    interface value (nil interface: Iface{})
+//	*Closure function value (nil func: (*Closure)(nil))
+//	MapV, ChanV, Struct, ArrayV, Tuple, *Opaque
 type Value interface{}
 
 // Cell is an addressable memory location. Aggregates (structs, arrays) own sub-cells.
@@ -40,9 +41,9 @@ type Arr struct {
 	isBytes bool
 	n       int
 	cells   []*Cell
-	dense   []*Term          // byte arrays up to denseLimit
-	sparse  map[int]*Term    // larger byte arrays
-	base    string           // non-empty: unwritten bytes are symbols base[i]; empty: zero
+	dense   []*Term       // byte arrays up to denseLimit
+	sparse  map[int]*Term // larger byte arrays
+	base    string        // non-empty: unwritten bytes are symbols base[i]; empty: zero
 	id      int
 	elem    types.Type
 }
